@@ -1128,3 +1128,55 @@ def com_setup_verdicts(repo):
             wd.append(f"{cls}.set_dof(constraints={c}, damp {'set' if damped else 'None'}) gives n_dof = {nd} for 5 atoms, expected {want}")
     v["dof"] = (not wd and len(dof) >= 12, "n_dof = 3 N - constraints; the Langevin thermostat ignores the constraints, XL-BOMD ignores them exactly when a damping time is set (interpreted)" if not wd else wd[0])
     return v
+
+
+# ====================================================================================================================
+# parameter packing, interpreted
+def interpreted_parameter_packing(repo):
+    """Pack_Parameters.__init__ / forward on a concrete request (AM1, learned = ['U_ss', 'beta_s'], an extra caller key): the table loader is replaced by a symbolic table
+    whose columns follow the `parameters=` list it is asked for.  Returns (ok, message)."""
+    import numpy as np
+    import sympy as sp
+    from .loader import AnalysisError
+    from .npsym import NpSym
+    bs = repo.mod("seqm/basics.py")
+    I = NpSym(repo)
+    asked = {}
+
+    def params(frame, *a, **k):
+        cols = list(k.get("parameters", a[3] if len(a) > 3 else []))
+        asked["cols"] = cols
+        return np.array([[sp.Symbol(f"tab_{c}_{z}") for c in cols] for z in range(10)], dtype=object)
+    I.stubs["params"] = lambda *a, **k: params(None, *a, **k)
+    I.stubs["PWCCT"] = lambda *a, **k: ("ALPHA", "CHI")
+    I.stubs["super"] = lambda *a, **k: types.SimpleNamespace(__init__=lambda fr, *a2, **k2: None)
+    selfns = types.SimpleNamespace()
+    learned = ["U_ss", "beta_s"]
+    sq = {"elements": [0, 1, 6, 8], "learned": list(learned), "method": "AM1", "parameter_file_dir": "/nowhere/"}
+    I.call_function(bs, "Pack_Parameters.__init__", [selfns, sq])
+    plist = I.global_value(bs, "parameterlist")["AM1"]
+    want_req = [k for k in plist if k not in learned]
+    if list(getattr(selfns, "required_list", [])) != want_req:
+        return False, f"required_list is {list(getattr(selfns, 'required_list', []))[:6]}..., not the method's parameters without the learned ones"
+    if asked.get("cols") != want_req:
+        return False, "the parameter table is not loaded for exactly the required (non-learned) parameters"
+    Z = np.array([8, 6, 1, 1], dtype=np.int64)
+    t_uss, t_beta, t_extra = (np.array([sp.Symbol(f"{n}{a}") for a in range(4)], dtype=object) for n in ("Uss", "betas", "extra"))
+    given = {"U_ss": t_uss, "beta_s": t_beta, "my_extra_key": t_extra}
+    res = I.call_function(bs, "Pack_Parameters.forward", [selfns, Z, given])
+    if not (isinstance(res, tuple) and len(res) == 3 and isinstance(res[0], dict)):
+        raise AnalysisError("Pack_Parameters.forward does not return (dict, alpha, chi)")
+    out = res[0]
+    if out.get("U_ss") is not t_uss or out.get("beta_s") is not t_beta:
+        return False, "a learned (caller-supplied) parameter tensor is replaced or copied by the packing: gradients with respect to it are lost"
+    if out.get("my_extra_key") is not t_extra:
+        return False, "a caller-supplied key that is not a method parameter is dropped or replaced by the packing"
+    for k in want_req:
+        v = out.get(k)
+        if getattr(v, "shape", None) != (4,) or any(v[a] != sp.Symbol(f"tab_{k}_{Z[a]}") for a in range(4)):
+            return False, f"packed parameter `{k}` is not the table column of `{k}` at the atoms' atomic numbers"
+    if set(out) != set(want_req) | set(given):
+        return False, f"unexpected keys after packing: {sorted(set(out) - set(want_req) - set(given))[:4]}"
+    if res[1] != "ALPHA" or res[2] != "CHI":
+        return False, "alpha / chi are not passed through"
+    return True, f"packing: the {len(want_req)} non-learned AM1 parameters come from their own table column at Z, learned and extra caller tensors are passed through as the same objects"
